@@ -44,6 +44,7 @@ Inductive event :=
 | EObsReq (m p : Z) (h : hdrs)                         (* a handler program looked at method, URL, headers *)
 | EObsRead (bs : list Z)                               (* a handler program read these body bytes *)
 | EObsHdr (h : hdrs)                                   (* a handler program looked at w.Header() *)
+| EMark (i : Z)                                        (* a handler program announced itself (which handler ran) *)
 | ELogReq (m p : Z) (body : list Z)                    (* logger: "Request received" *)
 | ELogResp (m p : Z) (status : Z) (body : list Z).     (* logger: "Response Sent" *)
 
@@ -95,6 +96,7 @@ Definition middleware := handler -> handler.               (* HttpHandlerMiddlew
    their interfaces; continuations make later behaviour depend on what was observed. *)
 Inductive hprog :=
 | HDone
+| HMark (i : Z) (k : hprog)                    (* record "handler i is running" (harness recorders) *)
 | HObsReq (k : Z -> Z -> hdrs -> hprog)        (* r.Method, r.URL.Path, r.Header *)
 | HRead (n : nat) (k : list Z -> hprog)        (* io.ReadFull(r.Body, buf[:n]) : min(n, remaining) bytes *)
 | HReadAll (k : list Z -> hprog)               (* io.ReadAll(r.Body) *)
@@ -106,6 +108,7 @@ Inductive hprog :=
 Fixpoint run_h (h : hprog) (w : writer) (s : world) : world :=
   match h with
   | HDone => s
+  | HMark i k => run_h k w (logev (EMark i) s)
   | HObsReq k =>
       let q := w_req s in
       run_h (k (q_method q) (q_path q) (q_hdr q)) w (logev (EObsReq (q_method q) (q_path q) (q_hdr q)) s)
